@@ -14,14 +14,16 @@
   (`symProg` / `symBits`: the bits of one symbol) and `Model/Rc.lean` (the range encoder; `Enc.pendingSize` is
   `get_pending_size`).  Imports Model files only; the compiled driver runs it (`lzma2w.fast`).
 
-  HISTORY that is modelled: `write(data)` (everything in ONE call) followed by `finish()`.
+  HISTORIES that are modelled: `write(part₁); …; write(partₙ); finish()` (no `flush`); the headline function
+  `lzma2FastBytes` is the one-call history `write(data); finish()`.
   * Without `chunk_size` the output does not depend on how the data is cut into `write` calls (the pauses of
     `encode_for_lzma2` at `has_enough_data` keep range coder, counters and `read_ahead`; `EncWindow.lean`
     proves that the search sees the same bytes), so the model runs the encoder with everything present.
   * With `chunk_size` the place where `start_independent_chunk` fires is decided once per iteration of the loop in
     `write` (`uncompressed_size >= chunk_size`), i.e. it depends on how much `fill_window` could take in: on the
-    window size and on the `write` partition.  `planCuts` simulates exactly that loop for the one-call history
-    (positions only); every segment between two cuts is then encoded by a fresh encoder on its own bytes.
+    window size and on the `write` partition.  `planSeg` simulates exactly that loop for a given list of `write`
+    call sizes (`fastEventsParts`; `fastEvents` is the one-call history); every segment between two cuts is then
+    encoded by a fresh encoder on its own bytes.
   * `flush()` is not an event of this model (it ends the chunk at the flush point, the finder sees the data cut
     there; see the report).
 
@@ -310,15 +312,17 @@ structure PlanSt (σ : Type) where
   /-- `LZMA2Writer::uncompressed_size` -/
   written : Nat
 
-/-- Iterations of `while len > 0 { … }` in `write` until `should_start_independent_chunk()` holds with input
-    left: returns the logical `write_pos` at that moment (the segment end), or `none` when the input ends
-    first (the last segment).  `cs` is the clamped chunk size.  `none` also stands for a range-coder overflow
-    (found again by `segEvents`). -/
-def planSeg (d : Array UInt8) (cs : Nat) : Nat → PlanSt σ → Option Nat
-  | 0, _ => none
-  | fuel + 1, ⟨enc, wp0, base0, lim0, written⟩ =>
-    if wp0 ≥ d.size then none                      -- `len == 0`: the loop ends
-    else if written ≥ cs then some wp0             -- `should_start_independent_chunk()`
+/-- The `write` calls (`ends` = logical end positions in `d` of the current and the later calls' slices) and in
+    each the iterations of `while len > 0 { … }`, until `should_start_independent_chunk()` holds with input
+    left in the current call: returns the logical `write_pos` at that moment (the segment end) and the calls
+    still to be served, or `none` when the input ends first (the last segment).  `cs` is the clamped chunk
+    size.  `none` also stands for a range-coder overflow (found again by `segEvents`). -/
+def planSeg (d : Array UInt8) (cs : Nat) : Nat → List Nat → PlanSt σ → Option (Nat × List Nat)
+  | 0, _, _ => none
+  | _ + 1, [], _ => none
+  | fuel + 1, e :: ends, ⟨enc, wp0, base0, lim0, written⟩ =>
+    if wp0 ≥ e then planSeg d cs fuel ends ⟨enc, wp0, base0, lim0, written⟩   -- `len == 0`: this call returns
+    else if written ≥ cs then some (wp0, e :: ends)  -- `should_start_independent_chunk()`
     else
       -- `fill_window`
       let readPosBuf : Int := ((enc.p + enc.ra : Nat) : Int) - 1 - (base0 : Int)
@@ -326,7 +330,7 @@ def planSeg (d : Array UInt8) (cs : Nat) : Nat → PlanSt σ → Option Nat
         if readPosBuf ≥ (W.bufSize : Int) - (W.keepAfter : Int) then
           base0 + EncWindow.alignDown (readPosBuf + 1 - (W.keepBefore : Int)).toNat
         else base0
-      let used := min (d.size - wp0) (W.bufSize - (wp0 - base))
+      let used := min (e - wp0) (W.bufSize - (wp0 - base))
       let wp := wp0 + used
       let lim := if wp - base ≥ W.keepAfter then wp - (W.keepAfter - 1) else lim0
       -- `if self.lzma.encode_for_lzma2(..)? { self.write_chunk()?; }`
@@ -339,25 +343,32 @@ def planSeg (d : Array UInt8) (cs : Nat) : Nat → PlanSt σ → Option Nat
             | .lzma unc _ _ => unc
             | .stored raw => raw.length
             | .restart => 0
-          planSeg d cs fuel { enc := e', wp := wp, base := base, lim := lim, written := written + n }
-      else planSeg d cs fuel { enc := r.1, wp := wp, base := base, lim := lim, written := written }
+          planSeg d cs fuel (e :: ends) { enc := e', wp := wp, base := base, lim := lim, written := written + n }
+      else planSeg d cs fuel (e :: ends) { enc := r.1, wp := wp, base := base, lim := lim, written := written }
 
 end Plan
 
-/-- the segments of the one-call history: `(bytes of the encoder instance incl. preset, preset length)`.
-    `mk last` is the match finder of a segment (`last`: it ends with `finish`, otherwise with `set_flushing`).
-    `rest` = what is still to come (for the first segment led by `q0` preset bytes). -/
+/-- the segments of a history `write(part₁); …; write(partₙ); finish()`: `(bytes of the encoder instance incl.
+    preset, preset length)`.  `mk last` is the match finder of a segment (`last`: it ends with `finish`, otherwise
+    with `set_flushing`).  `rest` = what is still to come (for the first segment led by `q0` preset bytes),
+    `ends` the end positions in `rest` of the `write` calls still to be served. -/
 def segments {σ : Type} (mk : Bool → Finder σ) (P : FastParams) (o : Opts) (cs : Nat) :
-    Nat → Array UInt8 → Nat → List (Array UInt8 × Nat)
-  | 0, rest, q0 => [(rest, q0)]
-  | fuel + 1, rest, q0 =>
+    Nat → Array UInt8 → Nat → List Nat → List (Array UInt8 × Nat)
+  | 0, rest, q0, _ => [(rest, q0)]
+  | fuel + 1, rest, q0, ends =>
     let W := winParams o
-    match planSeg (mk false) P o W rest cs (2 * rest.size + 4)
+    match planSeg (mk false) P o W rest cs (2 * rest.size + ends.length + 4) ends
         { enc := encNew (mk false) o.params rest q0, wp := q0, base := 0, lim := 0, written := 0 } with
     | none => [(rest, q0)]
-    | some cut =>
+    | some (cut, ends') =>
       if cut ≥ rest.size ∨ cut ≤ q0 then [(rest, q0)]
-      else (rest.extract 0 cut, q0) :: segments mk P o cs fuel (rest.extract cut rest.size) 0
+      else (rest.extract 0 cut, q0) ::
+        segments mk P o cs fuel (rest.extract cut rest.size) 0 (ends'.map (· - cut))
+
+/-- end positions of the slices of the `write` calls (lengths `parts`) from position `at` on -/
+def partEnds : Nat → List Nat → List Nat
+  | _, [] => []
+  | pos, n :: ns => (pos + n) :: partEnds (pos + n) ns
 
 /-- events of all segments, `restart` between them -/
 def segsEvents {σ : Type} (mk : Bool → Finder σ) (P : FastParams) (o : Opts) :
@@ -369,14 +380,21 @@ def segsEvents {σ : Type} (mk : Bool → Finder σ) (P : FastParams) (o : Opts)
     | some a, some b => some (a ++ .restart :: b)
     | _, _ => none
 
-/-- the events of `LZMA2Writer::new(sink, options)` (preset dictionary inside), `write(data)`, `finish()` -/
-def fastEvents {σ : Type} (mk : Bool → Finder σ) (P : FastParams) (o : Opts)
-    (preset data : Array UInt8) : Option (List Ev) :=
+/-- the events of `LZMA2Writer::new(sink, options)` (preset dictionary inside), one `write` call per element of
+    `parts` (their lengths; they must add up to `data.size`), `finish()`.  Without `chunk_size` the partition
+    is irrelevant. -/
+def fastEventsParts {σ : Type} (mk : Bool → Finder σ) (P : FastParams) (o : Opts)
+    (preset data : Array UInt8) (parts : List Nat) : Option (List Ev) :=
   let pu := presetUsedW o.dict preset
   let d := pu ++ data
   match o.chunkClamped with
   | none => segEvents (mk true) P o.nice o.params d pu.size
-  | some cs => segsEvents mk P o (segments mk P o cs data.size d pu.size)
+  | some cs => segsEvents mk P o (segments mk P o cs data.size d pu.size (partEnds pu.size parts))
+
+/-- the history `write(data); finish()` -/
+def fastEvents {σ : Type} (mk : Bool → Finder σ) (P : FastParams) (o : Opts)
+    (preset data : Array UInt8) : Option (List Ev) :=
+  fastEventsParts mk P o preset data [data.size]
 
 /-- **the bytes the real `LZMA2Writer` produces** in fast mode for `write(data); finish()`.
     An empty preset dictionary is no preset dictionary (`LZMA2Writer::new`). -/
